@@ -5,7 +5,7 @@
 # ------------------------------------------------------------------ MessageId
 
 
-@unit("j1939.message_id:MessageId.__init__", variant="fields", arith="bv", width=48, props=["C15", "C03", "C13"])
+@unit("j1939.message_id:MessageId.__init__", variant="fields", arith="bv", replay="native", width=48, props=["C15", "C03", "C13"])
 def _(self: "MessageId", **kwargs):
     kwargs(priority="int", parameter_group_number="int", source_address="int")
     requires(-2**40 <= kwargs['priority'] < 2**40, -2**40 <= kwargs['parameter_group_number'] < 2**40,
@@ -17,13 +17,13 @@ def _(self: "MessageId", **kwargs):
     ensures("C15.mid.compose", self.can_id == can_id_of(kwargs['priority'], kwargs['parameter_group_number'], kwargs['source_address']))
 
 
-@unit("j1939.message_id:MessageId.__init__", variant="defaults", arith="bv", width=48, props=["C15"])
+@unit("j1939.message_id:MessageId.__init__", variant="defaults", arith="bv", replay="native", width=48, props=["C15"])
 def _(self: "MessageId", **kwargs):
     kwargs()
     ensures("C15.mid.init_defaults", self.priority == 0, self.parameter_group_number == 0, self.source_address == 0)
 
 
-@unit("j1939.message_id:MessageId.__init__", variant="can_id", arith="bv", width=48, props=["C15", "C03", "C05"])
+@unit("j1939.message_id:MessageId.__init__", variant="can_id", arith="bv", replay="native", width=48, props=["C15", "C03", "C05"])
 def _(self: "MessageId", **kwargs):
     kwargs(can_id="int")
     requires(0 <= kwargs['can_id'] < 2**32)
@@ -35,7 +35,7 @@ def _(self: "MessageId", **kwargs):
     ensures("C15.mid.rt_id", implies(kwargs['can_id'] < 2**29, self.can_id == kwargs['can_id']))
 
 
-@unit("j1939.message_id:MessageId.can_id.getter", arith="bv", width=48, props=["C15", "C03"])
+@unit("j1939.message_id:MessageId.can_id.getter", arith="bv", replay="native", width=48, props=["C15", "C03"])
 def _(self: "MessageId"):
     requires(0 <= self.priority < 8, 0 <= self.parameter_group_number < 2**18, 0 <= self.source_address < 256)
     ensures("C15.mid.compose_getter", result == can_id_of(self.priority, self.parameter_group_number, self.source_address))
@@ -45,7 +45,7 @@ def _(self: "MessageId"):
             id_sa(result) == self.source_address)
 
 
-@unit("j1939.message_id:MessageId.can_id.setter", arith="bv", width=48, props=["C15", "C03"])
+@unit("j1939.message_id:MessageId.can_id.setter", arith="bv", replay="native", width=48, props=["C15", "C03"])
 def _(self: "MessageId", can_id: "int"):
     requires(0 <= can_id < 2**32)
     ensures("C15.mid.parse_setter",
@@ -55,7 +55,7 @@ def _(self: "MessageId", can_id: "int"):
 
 # ------------------------------------------------------------------ ParameterGroupNumber
 
-@unit("j1939.parameter_group_number:ParameterGroupNumber.__init__", arith="bv", width=48, props=["C15", "C03"])
+@unit("j1939.parameter_group_number:ParameterGroupNumber.__init__", arith="bv", replay="native", width=48, props=["C15", "C03"])
 def _(self: "ParameterGroupNumber", data_page: "int", pdu_format: "int", pdu_specific: "int"):
     requires(-2**40 <= data_page < 2**40, -2**40 <= pdu_format < 2**40, -2**40 <= pdu_specific < 2**40)
     ensures("C15.pgn.init", self.data_page == bits(data_page, 0, 1), self.pdu_format == bits(pdu_format, 0, 8),
@@ -63,7 +63,7 @@ def _(self: "ParameterGroupNumber", data_page: "int", pdu_format: "int", pdu_spe
     ensures("C15.pgn.value", self.value == pgn_value_of(data_page, pdu_format, pdu_specific))
 
 
-@unit("j1939.parameter_group_number:ParameterGroupNumber.value.getter", arith="bv", width=48, props=["C15", "C03"])
+@unit("j1939.parameter_group_number:ParameterGroupNumber.value.getter", arith="bv", replay="native", width=48, props=["C15", "C03"])
 def _(self: "ParameterGroupNumber"):
     requires(0 <= self.data_page < 2, 0 <= self.pdu_format < 256, 0 <= self.pdu_specific < 256)
     ensures("C15.pgn.value_getter", result == pgn_value_of(self.data_page, self.pdu_format, self.pdu_specific))
@@ -71,20 +71,20 @@ def _(self: "ParameterGroupNumber"):
             bits(result, 0, 8) == self.pdu_specific, 0 <= result < 2**17)
 
 
-@unit("j1939.parameter_group_number:ParameterGroupNumber.is_pdu1_format.getter", arith="bv", width=48, props=["C15", "C05"])
+@unit("j1939.parameter_group_number:ParameterGroupNumber.is_pdu1_format.getter", arith="bv", replay="native", width=48, props=["C15", "C05"])
 def _(self: "ParameterGroupNumber"):
     requires(0 <= self.data_page < 2, 0 <= self.pdu_format < 256, 0 <= self.pdu_specific < 256)
     ensures("C15.pgn.classes.pdu1", result == pgn_is_pdu1(self.value))
     ensures("C15.pgn.classes.xor", result != self.is_pdu2_format)
 
 
-@unit("j1939.parameter_group_number:ParameterGroupNumber.is_pdu2_format.getter", arith="bv", width=48, props=["C15", "C05"])
+@unit("j1939.parameter_group_number:ParameterGroupNumber.is_pdu2_format.getter", arith="bv", replay="native", width=48, props=["C15", "C05"])
 def _(self: "ParameterGroupNumber"):
     requires(0 <= self.data_page < 2, 0 <= self.pdu_format < 256, 0 <= self.pdu_specific < 256)
     ensures("C15.pgn.classes.pdu2", result == (not pgn_is_pdu1(self.value)))
 
 
-@unit("j1939.parameter_group_number:ParameterGroupNumber.from_message_id", arith="bv", width=48, props=["C15", "C03", "C05"])
+@unit("j1939.parameter_group_number:ParameterGroupNumber.from_message_id", arith="bv", replay="native", width=48, props=["C15", "C03", "C05"])
 def _(self: "ParameterGroupNumber", mid: "MessageId"):
     requires(0 <= mid.priority < 8, 0 <= mid.parameter_group_number < 2**18, 0 <= mid.source_address < 256)
     ensures("C15.pgn.from_mid", self.data_page == bits(mid.parameter_group_number, 16, 1),
@@ -97,7 +97,7 @@ def _(self: "ParameterGroupNumber", mid: "MessageId"):
 
 # ------------------------------------------------------------------ Name
 
-@unit("j1939.name:Name.__init__", variant="fields", arith="bv", width=80, props=["C15", "C04"])
+@unit("j1939.name:Name.__init__", variant="fields", arith="bv", replay="native", width=80, props=["C15", "C04"])
 def _(self: "Name", **kwargs):
     kwargs(arbitrary_address_capable="int", industry_group="int", vehicle_system_instance="int", vehicle_system="int",
            function="int", function_instance="int", ecu_instance="int", manufacturer_code="int", identity_number="int")
@@ -124,13 +124,13 @@ def _(self: "Name", **kwargs):
     ensures("C15.name.value_64bit", 0 <= self.value < 2**64)
 
 
-@unit("j1939.name:Name.__init__", variant="defaults", arith="bv", width=80, props=["C15"])
+@unit("j1939.name:Name.__init__", variant="defaults", arith="bv", replay="native", width=80, props=["C15"])
 def _(self: "Name", **kwargs):
     kwargs()
     ensures("C15.name.ctor_defaults", self.value == 0, self.reserved_bit == 0)
 
 
-@unit("j1939.name:Name.__init__", variant="value", arith="bv", width=80, props=["C15", "C04"])
+@unit("j1939.name:Name.__init__", variant="value", arith="bv", replay="native", width=80, props=["C15", "C04"])
 def _(self: "Name", **kwargs):
     kwargs(value="int")
     requires(0 <= kwargs['value'] < 2**72)
@@ -145,7 +145,7 @@ def _(self: "Name", **kwargs):
     ensures("C15.name.rt_value", self.value == bits(kwargs['value'], 0, 48) + bits(kwargs['value'], 49, 15) * 2**49)
 
 
-@unit("j1939.name:Name.__init__", variant="bytes", arith="bv", width=80, props=["C15", "C04"])
+@unit("j1939.name:Name.__init__", variant="bytes", arith="bv", replay="native", width=80, props=["C15", "C04"])
 def _(self: "Name", **kwargs):
     kwargs(bytes="octets")
     requires(len(kwargs['bytes']) == 8, octets(kwargs['bytes']))
@@ -166,7 +166,7 @@ def _(self: "Name", **kwargs):
             self.bytes[6] == kwargs['bytes'][6] - bits(kwargs['bytes'][6], 0, 1), export=False)
 
 
-@unit("j1939.name:Name.value.getter", arith="bv", width=80, props=["C15", "C04"])
+@unit("j1939.name:Name.value.getter", arith="bv", replay="native", width=80, props=["C15", "C04"])
 def _(self: "Name"):
     requires(name_in_range(self.arbitrary_address_capable, self.industry_group, self.vehicle_system_instance, self.vehicle_system,
                            self.function, self.function_instance, self.ecu_instance, self.manufacturer_code, self.identity_number),
@@ -185,7 +185,7 @@ def _(self: "Name"):
             0 <= result < 2**64)
 
 
-@unit("j1939.name:Name.value.setter", arith="bv", width=80, props=["C15", "C04"])
+@unit("j1939.name:Name.value.setter", arith="bv", replay="native", width=80, props=["C15", "C04"])
 def _(self: "Name", value: "int"):
     requires(0 <= value < 2**72)
     ensures("C15.name.parse_setter",
@@ -197,7 +197,7 @@ def _(self: "Name", value: "int"):
             self.arbitrary_address_capable == bits(value, 63, 1))
 
 
-@unit("j1939.name:Name.bytes.getter", arith="bv", width=80, props=["C15", "C04", "C13"])
+@unit("j1939.name:Name.bytes.getter", arith="bv", replay="native", width=80, props=["C15", "C04", "C13"])
 def _(self: "Name"):
     requires(name_in_range(self.arbitrary_address_capable, self.industry_group, self.vehicle_system_instance, self.vehicle_system,
                            self.function, self.function_instance, self.ecu_instance, self.manufacturer_code, self.identity_number),
@@ -207,7 +207,7 @@ def _(self: "Name"):
             le8(result[0], result[1], result[2], result[3], result[4], result[5], result[6], result[7]) == self.value)
 
 
-@unit("j1939.name:Name.bytes.setter", arith="bv", width=80, props=["C15", "C04"])
+@unit("j1939.name:Name.bytes.setter", arith="bv", replay="native", width=80, props=["C15", "C04"])
 def _(self: "Name", value: "octets"):
     requires(len(value) == 8, octets(value))
     let("v", le8(value[0], value[1], value[2], value[3], value[4], value[5], value[6], value[7]))
